@@ -19,6 +19,17 @@ BaseRows == << Row("R1", "L", <<R(4)>>, <<>>), Row("R2", "G", <<R(-1)>>, <<>>) >
 BaseCols == << Col("X", FALSE, <<R(1)>>, << <<1, R(1)>>, <<2, R(2)>> >>, <<>>), Col("Y", TRUE, <<R(-3)>>, << <<1, <<1,2>> >> >>, << Bd("UP", <<R(7)>>) >>) >>
 NextBounds == \E sc \in BoundScenarios, int \in BOOLEAN, lay \in Lay :
    vec' = Ev(Model("absent", FALSE, <<>>, BaseRows, << Col("X", int, <<R(1)>>, << <<1, R(1)>> >>, sc), BaseCols[2] >>), lay, "none", "raw", FALSE)
+\* every sensible BOUNDS block of one column: at most one lower-type and one upper-type directive in either order, or one
+\* directive that sets both ends; values on both sides of 0 and 0 itself
+BVals == {R(-2), Zero, One, R(4)}
+LowerDirs == { Bd("LO", <<v>>) : v \in BVals } \cup { Bd("LI", <<v>>) : v \in BVals } \cup { Bd("MI", <<>>) }
+UpperDirs == { Bd("UP", <<v>>) : v \in BVals } \cup { Bd("UI", <<v>>) : v \in BVals } \cup { Bd("PL", <<>>) }
+BothDirs == { Bd("FX", <<v>>) : v \in BVals } \cup { Bd("FR", <<>>), Bd("BV", <<>>) }
+BoundBlocks == { <<d>> : d \in LowerDirs \cup UpperDirs \cup BothDirs }
+               \cup { <<l, u>> : l \in LowerDirs, u \in UpperDirs } \cup { <<u, l>> : l \in LowerDirs, u \in UpperDirs }
+NextBoundBlocks == \E sc \in BoundBlocks, int \in BOOLEAN :
+   vec' = Ev(Model("absent", FALSE, <<>>, BaseRows, << Col("X", int, <<R(1)>>, << <<1, R(1)>> >>, sc), BaseCols[2] >>),
+             [two |-> FALSE, comments |-> FALSE, blank |-> FALSE], "none", "raw", FALSE)
 NextRows == \E ty \in {"E", "L", "G"}, rhs \in {<<>>, <<R(3)>>, <<R(-2)>>}, rng \in {<<>>, <<R(2)>>, <<R(-2)>>, << <<1,2>> >>},
                orhs \in {<<>>, <<R(5)>>, <<R(-1)>>}, lay \in [two : BOOLEAN, comments : {FALSE}, blank : {FALSE}] :
    vec' = Ev(Model("absent", FALSE, orhs, << Row("R1", ty, rhs, rng), BaseRows[2] >>, BaseCols), lay, "none", "raw", FALSE)
@@ -39,7 +50,7 @@ Models == IF "MODELS" \in DOMAIN IOEnv THEN ndJsonDeserialize(IOEnv.MODELS) ELSE
 NextRandom == \E k \in DOMAIN Models : vec' = Ev(Models[k].model, Models[k].layout, "none", Models[k].via, FALSE)
 Step(A) == phase = 0 /\ phase' = 1 /\ A
 Init == vec = <<>> /\ phase = 0
-Next == Step(NextBounds \/ NextRows \/ NextSense \/ NextNames \/ NextFaults)
+Next == Step(NextBounds \/ NextBoundBlocks \/ NextRows \/ NextSense \/ NextNames \/ NextFaults)
 NextR == Step(NextRandom)
 Emit == phase = 1 => PrintT("VEC " \o ToJson(vec))
 =============================================================================
